@@ -2,7 +2,7 @@
 C17 driver: one line of harness/cmd/c17 → the model's observation and the Spec verdict on the implementation's one.
 
 input : kind=… root=… path=… exp=reject|accept|value|cast|disc|none at=<Go field path> fk=<kind> raw=s(text)
-        want=<value> env=m(…) props=m(file,m(…)) cfg=<value>
+        want=<value> env=m(…) props=m(file,l(s(line),…)) cfg=<value>
 obs   : (err=<classes> | late=<classes> | ok val=<decoded value> | ok disc=<bool,…>) sch=<schema>
         (the schema is an observation too: the reflection dump of the real types; the model echoes it)
 -/
@@ -179,8 +179,12 @@ def toEnv (env props : Term) : Env :=
   let rec pairs : List Term → List (Str × Str)
     | k :: v :: r => (strOf k, sArg v) :: pairs r
     | _ => []
-  let rec files : List Term → List (Str × List (Str × Str))
-    | k :: v :: r => (strOf k, pairs v.args) :: files r
+  -- a file is `l(s(line),…)`: its lines in order (older inputs: `m(key,s(value),…)`, read as lines `key=value`)
+  let linesOf (t : Term) : List Str :=
+    if t.name == "l" then t.args.map sArg
+    else (pairs t.args).map fun kv => kv.1 ++ '=' :: kv.2
+  let rec files : List Term → List (Str × List Str)
+    | k :: v :: r => (strOf k, linesOf v) :: files r
     | _ => []
   { vars := pairs env.args, files := files props.args }
 
@@ -329,7 +333,7 @@ def failKey (kind : String) (why : String) : String :=
   let base :=
     if kind == "unknown" || kind == "misspelled" then "unknown-key-accepted"
     else if kind == "mistyped" then "mistyped-accepted"
-    else if kind == "oor" || kind == "doc" then "constraint-accepted"
+    else if kind == "oor" || kind == "doc" || (kind == "typeonly" && why == "accepted") then "constraint-accepted"
     else if kind == "ph-unset" || kind == "ph-noprop" || kind == "ph-nofile" then "placeholder-missing-accepted"
     else if kind == "null" || kind == "base" then "default-lost"
     else if kind.startsWith "ph-" then "placeholder-cast"
